@@ -619,6 +619,10 @@ def robot_check(ctx, pid):
     # the programs the theorems are about, regenerated from the current source (fail-closed translator)
     from . import robot_translate
     robot_translate.obligation(ctx, pid.lower())
+    if pid == "C05":
+        # the time axis rests on NotifierDelay: its methods, regenerated and proved equal to Delay.Model
+        from . import c16_translate
+        c16_translate.obligation(ctx)
     n = {"quick": 200, "thorough": 3000}[ctx.tier]
     r = ctx.rng
     cdir = os.path.join(CORPUS, pid)
